@@ -735,15 +735,21 @@ func replay(cfg *lib.Config, res *lib.Result) {
 			}
 			if isMultiCase(c) {
 				nf := nsCasesFile()
+				cf := chainCasesFile()
 				e.emit = func(c caseT, rr *runResult) {
 					if nsModelled(c) {
 						nf.Add(gNsCase(c, rr), c.input(rr.Sched))
+					} else if _, _, ok := chainModelled(c); ok {
+						cf.Add(gChainCase(c, rr), c.input(rr.Sched))
 					}
 				}
 				e.visit(c, rr, "replay", true)
 				e.emit = nil
 				if len(nf.Cases) > 0 {
 					res.CorrFiles = append(res.CorrFiles, nf.WriteTo(cfg.Out, "cases_ns"))
+				}
+				if len(cf.Cases) > 0 {
+					res.CorrFiles = append(res.CorrFiles, cf.WriteTo(cfg.Out, "cases_nschain"))
 				}
 			} else if hasDisc {
 				df := discCasesFile()
